@@ -31,6 +31,7 @@ type Config struct {
 	TimeoutMs     int
 	SchedChoice   bool
 	MapOrderChoice bool
+	HashIDs       bool // meow on symbolic input: concrete identifiers decided by forking on input equality
 	MaxConcretize int
 	AllocBudget   int64 // bytes; 0 = no allocation check
 	AllocCap      int64 // elements explored beyond which a symbolic make is cut
